@@ -234,6 +234,18 @@ Definition agree07 (k : case07) : bool :=
 
 Definition hdr_in (h : hdr) (l : list hdr) : bool := existsb (hdr_eqb h) l.
 
+(** the action that spawned learner call number [i] *)
+Fixpoint nth_call (l : list (dact * obs)) (i : nat) : option dact :=
+  match l with
+  | [] => None
+  | (a, _) :: r =>
+    match a with
+    | DDeliver _ _ _ | DDeliverP _ _ _ | DHead _ | DHeadP _ =>
+      match i with O => Some a | S j => nth_call r j end
+    | _ => nth_call r i
+    end
+  end.
+
 (** the premises of C07: every delivered / Head()-supplied header is a header
     of the true chain, every answer is an error or a non-empty prefix no longer
     than requested *)
@@ -243,8 +255,9 @@ Fixpoint honest07 (u : list hdr) (prev_req : option (N * N)) (l : list (dact * o
   | (a, o) :: r =>
     (match a with
      | DDeliver h _ _ => hdr_in h u
-     | DHead (Some h) => hdr_in h u
-     | DHead None => true
+     | DHead (Some h) | DHeadP (Some h) => hdr_in h u
+     | DHead None | DHeadP None => true
+     | DRelT _ => true          (* a delayed Head() call goes on with its answer *)
      | DAnswer AErr => true
      | DAnswer (APrefix k) =>
        match prev_req with
@@ -255,23 +268,30 @@ Fixpoint honest07 (u : list hdr) (prev_req : option (N * N)) (l : list (dact * o
      end) && honest07 u (o_req o) r
   end.
 
-Definition accepted_height (a : dact) (o : obs) : N :=
+(** (the answer of a delayed Head() call counts from the moment the call goes on with it; one that is not
+    above the subjective head the call had captured is not above the newest verified head either) *)
+Definition accepted_height (all : list (dact * obs)) (a : dact) (o : obs) : N :=
   match a with
   | DDeliver h _ _ => if o_ret o =? 1 then h_height h else 0
   | DHead (Some h) => h_height h
+  | DRelT i => match nth_call all i with Some (DHeadP (Some h)) => h_height h | _ => 0 end
   | _ => 0
   end.
+
+(** learner calls are atomic in this script (none is delayed in the middle) *)
+Definition atomic07 (l : list (dact * obs)) : bool :=
+  forallb (fun p => match fst p with DDeliver _ _ _ | DHead _ | DAnswer _ => true | _ => false end) l.
 
 Definition is_err_answer (a : dact) : bool :=
   match a with DAnswer AErr => true | _ => false end.
 
 (** walk over the observations: [newest] = newest verified head so far,
     [prev] = previous observation *)
-Fixpoint walk07 (u : list hdr) (newest : N) (prev : obs) (l : list (dact * obs)) : bool :=
+Fixpoint walk07 (all : list (dact * obs)) (u : list hdr) (newest : N) (prev : obs) (l : list (dact * obs)) : bool :=
   match l with
   | [] => true
   | (a, o) :: r =>
-    let newest' := N.max newest (accepted_height a o) in
+    let newest' := N.max newest (accepted_height all a o) in
     (* the Store's head is the true chain's header of that height *)
     existsb (fun h => (h_height h =? o_head o) && (h_id h =? o_hid o)) u &&
     (* the subjective head is the newest verified head, whatever the sync loop is doing *)
@@ -282,20 +302,21 @@ Fixpoint walk07 (u : list hdr) (newest : N) (prev : obs) (l : list (dact * obs))
     && (o_head prev <=? o_head o) && (o_id prev <=? o_id o)
     (* the store never runs ahead of what was verified *)
     && (o_head o <=? newest')
-    (* an outstanding request resumes from the store head, asks for at most 64, never beyond the target *)
+    (* an outstanding request resumes from the store head (with delayed Head() calls the store may have moved on
+       since it was issued), asks for at most 64, never beyond the target *)
     && (match o_req o with
-        | Some (f, t) => (f =? o_head o) && (f + 1 <? t) && (t <=? f + 65) && (t - 1 <=? newest')
+        | Some (f, t) => (if atomic07 all then f =? o_head o else f <=? o_head o) && (f + 1 <? t) && (t <=? f + 65) && (t - 1 <=? newest')
         | None => true
         end)
     (* a getter error aborts the attempt: State reports it, store and subjective head are intact *)
     && (if is_err_answer a then o_err o && (o_head o =? o_head prev) && (o_local o =? o_local prev) else true)
-    && walk07 u newest' o r
+    && walk07 all u newest' o r
   end.
 
-Fixpoint newest07 (newest : N) (l : list (dact * obs)) : N :=
+Fixpoint newest07 (all : list (dact * obs)) (newest : N) (l : list (dact * obs)) : N :=
   match l with
   | [] => newest
-  | (a, o) :: r => newest07 (N.max newest (accepted_height a o)) r
+  | (a, o) :: r => newest07 all (N.max newest (accepted_height all a o)) r
   end.
 
 (** index (from 1) of the first observation carrying sync id [id] / of the last learn *)
@@ -305,12 +326,12 @@ Fixpoint first_with_id (id : N) (i : N) (l : list (dact * obs)) : N :=
   | (_, o) :: r => if o_id o =? id then i else first_with_id id (i + 1) r
   end.
 
-Fixpoint last_learn (newest : N) (i last : N) (l : list (dact * obs)) : N :=
+Fixpoint last_learn (all : list (dact * obs)) (newest : N) (i last : N) (l : list (dact * obs)) : N :=
   match l with
   | [] => last
   | (a, o) :: r =>
-    if newest <? accepted_height a o then last_learn (accepted_height a o) (i + 1) i r
-    else last_learn newest (i + 1) last r
+    if newest <? accepted_height all a o then last_learn all (accepted_height all a o) (i + 1) i r
+    else last_learn all newest (i + 1) last r
   end.
 
 Fixpoint err_in_attempt (id : N) (l : list (dact * obs)) : bool :=
@@ -323,14 +344,14 @@ Definition final07 (k : case07) (h0 : N) : bool :=
   match last_opt (map snd (k_acts k)) with
   | None => true
   | Some o =>
-    let newest := newest07 h0 (k_acts k) in
+    let newest := newest07 (k_acts k) h0 (k_acts k) in
     match o_req o with
     | Some _ => true                                     (* the driver stopped with a request outstanding: nothing to claim *)
     | None =>
       if o_err o then
         (* only allowed when the final attempt was answered with an error and no head was learned after it began *)
         err_in_attempt (o_id o) (k_acts k)
-        && (last_learn h0 1 0 (k_acts k) <=? first_with_id (o_id o) 1 (k_acts k))
+        && (last_learn (k_acts k) h0 1 0 (k_acts k) <=? first_with_id (o_id o) 1 (k_acts k))
       else
         (* reached: store head = newest verified head, State finished without error, SyncWait returns *)
         (o_head o =? newest) && (o_height o =? newest) && (o_to o <=? o_height o) && k_wait k
@@ -345,7 +366,7 @@ Definition ok07 (k : case07) : bool :=
   let h0 := h_height (last (k_init k) hdr_nil) in
   if honest07 u None (k_acts k) then
     let o0 := Obs 0 h0 h0 0 0 0 0 false h0 None 0 in
-    walk07 u h0 o0 (k_acts k) && final07 k h0
+    walk07 (k_acts k) u h0 o0 (k_acts k) && final07 k h0
     (* what the Store serves at the end is exactly tail..head, true chain headers *)
     && (match last_opt (map snd (k_acts k)) with
         | Some o => consecutive_probe (k_tail k) (o_head o) (k_probe k)
